@@ -20,7 +20,7 @@ func init() {
 }
 
 var kindText = map[string]string{"ha": ">s1", "hb": ">s2 some description", "ht": ">s3\ttabbed header", "hl": "> s4 after a blank", "hn": ">", "hs": "> ", "AC": "AC", "ac": "ac",
-	"N-": "N-", "GT": "GT", "A": "A", "AZ": "AZ", "bl": ""}
+	"N-": "N-", "GT": "GT", "A": "A", "AZ": "AZ", "bl": "", "sp": "  \t", "Ab": "AC "}
 
 func renderKinds(vec map[string]interface{}) []byte {
 	if raw, ok := vec["raw"]; ok {
